@@ -10,9 +10,12 @@ import (
 	"context"
 	"crypto/sha1"
 	"fmt"
+	"regexp"
+	"runtime"
 	"sort"
 	"strconv"
 	"strings"
+	"sync"
 	"sync/atomic"
 
 	"github.com/d5/tengo/v2"
@@ -81,7 +84,7 @@ func goVal(v string) interface{} {
 	panic("unknown value " + v)
 }
 
-func readOnly(k string) bool { return k == "cget" || k == "cgetall" || k == "cisdef" }
+func readOnly(k string) bool   { return k == "cget" || k == "cgetall" || k == "cisdef" }
 func onCompiled(k string) bool { return strings.HasPrefix(k, "c") && k != "compile" }
 
 // ---- the real objects --------------------------------------------------------------
@@ -287,33 +290,8 @@ func checkState(w *world, m *model, op *Op, nBefore int, where func() string) (f
 	if pan != "" {
 		return []fail{{"history/" + opk + "/panic", where() + ": observing the state (GetAll) panicked: " + clip(pan, 200)}}, ""
 	}
-	// per-name observers of every object
-	for k, c := range w.objs {
-		for _, n := range opNames {
-			got, pan := func() (s string, pan string) {
-				defer func() {
-					if r := recover(); r != nil {
-						pan = fmt.Sprint(r)
-					}
-				}()
-				return varObs(c.Get(n)) + " defined=" + strconv.FormatBool(c.IsDefined(n)), ""
-			}()
-			if pan != "" {
-				return []fail{{"history/cget/panic", fmt.Sprintf("%s: then c%d.Get/IsDefined(%s) panicked: %s", where(), k, n, clip(pan, 200))}}, ""
-			}
-			want := m.varObs(n, gval(m.objs[k], n)) + " defined=" + strconv.FormatBool(m.isDefined(m.objs[k], n))
-			if got != want {
-				what := "value-mismatch"
-				if op != nil && onCompiled(op.K) && k != op.Obj && k < nBefore {
-					what = "leak-to-clone"
-				}
-				return []fail{{"history/" + opk + "/" + what,
-					fmt.Sprintf("%s: afterwards c%d.Get/IsDefined(%s) = {%s}, model expects {%s}", where(), k, n, clip(got, 300), clip(want, 300))}}, ""
-			}
-		}
-	}
 	if strings.Join(rc, "|") == strings.Join(mc, "|") {
-		return nil, strings.Join(rc, "|")
+		return checkObservers(w, m, rc, where)
 	}
 	// locate the first differing component and classify
 	idx := -1
@@ -340,9 +318,59 @@ func checkState(w *world, m *model, op *Op, nBefore int, where func() string) (f
 	case sharingOnly && isC:
 		what = "leak-to-clone"
 		detail = "a mutable container is shared where the model has a copy (or vice versa)"
+		if op.K != "cclone" && idx < len(rc) && sharesWith(rc[idx], rc[1]) {
+			what = "leak-to-script"
+			detail = "a mutable container is shared with the Script's variables where the model has a copy"
+		}
+	case sharingOnly:
+		detail = "values agree but the sharing of mutable containers differs from the model"
 	}
 	return []fail{{"history/" + opk + "/" + what,
 		fmt.Sprintf("%s: %s; state {%s}, model expects {%s}", where(), detail, clip(strings.Join(rc, " | "), 400), clip(strings.Join(mc, " | "), 400))}}, ""
+}
+
+func checkObservers(w *world, m *model, rc []string, where func() string) (fails []fail, canon string) {
+	// per-name observers of every object. The state read through GetAll agrees
+	// with the model at this point, so a deviation here is the observer's.
+	for k, c := range w.objs {
+		for _, n := range opNames {
+			got, pan := func() (s string, pan string) {
+				defer func() {
+					if r := recover(); r != nil {
+						pan = fmt.Sprint(r)
+					}
+				}()
+				return varObs(c.Get(n)) + " defined=" + strconv.FormatBool(c.IsDefined(n)), ""
+			}()
+			atomic.AddInt64(&apiCalls, 2)
+			if pan != "" {
+				return []fail{{"history/cget/panic", fmt.Sprintf("%s: then c%d.Get/IsDefined(%s) panicked: %s", where(), k, n, clip(pan, 200))}}, ""
+			}
+			want := m.varObs(n, gval(m.objs[k], n)) + " defined=" + strconv.FormatBool(m.isDefined(m.objs[k], n))
+			if got != want {
+				if i, j := strings.LastIndex(got, " defined="), strings.LastIndex(want, " defined="); i >= 0 && j >= 0 && got[:i] == want[:j] {
+					return []fail{{"history/cisdef/value-mismatch",
+						fmt.Sprintf("%s: afterwards c%d.Get(%s) agrees with the model but IsDefined = {%s}, model expects {%s}", where(), k, n, got[i+1:], want[j+1:])}}, ""
+				}
+				return []fail{{"history/cget/value-mismatch",
+					fmt.Sprintf("%s: afterwards GetAll agrees with the model but c%d.Get/IsDefined(%s) = {%s}, model expects {%s}", where(), k, n, clip(got, 300), clip(want, 300))}}, ""
+			}
+		}
+	}
+	return nil, strings.Join(rc, "|")
+}
+
+var backref = regexp.MustCompile(`#(\d+)`)
+
+// sharesWith: does component comp refer back (#k) to a container first
+// rendered (Ak[ / Mk{) in component def?
+func sharesWith(comp, def string) bool {
+	for _, m := range backref.FindAllStringSubmatch(comp, -1) {
+		if strings.Contains(def, "A"+m[1]+"[") || strings.Contains(def, "M"+m[1]+"{") {
+			return true
+		}
+	}
+	return false
 }
 
 func clip(s string, n int) string {
@@ -409,13 +437,38 @@ func valsFor(si int, thorough bool) []string {
 	return v
 }
 
+// opTable: every operation of the alphabet gets a small id, so that the
+// frontier stores paths as []uint16.
+var (
+	opTable []Op
+	opID    = map[Op]uint16{}
+)
+
+func initOps() {
+	mut, ro := enabledOps(3, []string{"nil", "1", "s", "arr", "map"})
+	for _, op := range append(mut, ro...) {
+		if _, ok := opID[op]; !ok {
+			opID[op] = uint16(len(opTable))
+			opTable = append(opTable, op)
+		}
+	}
+}
+
 type node struct {
-	si   int
-	path []Op
+	si   uint8
+	path []uint16
+}
+
+func (n node) ops() []Op {
+	p := make([]Op, len(n.path))
+	for i, id := range n.path {
+		p[i] = opTable[id]
+	}
+	return p
 }
 
 type succ struct {
-	op     Op
+	op     uint16
 	key    [16]byte
 	ok     bool // agreed with the model; key valid
 	nontr  bool
@@ -437,13 +490,18 @@ type histStats struct {
 	depth                                      int
 }
 
+const batchSize = 2048
+
 // explore runs the BFS. Deterministic: successors are computed in parallel per
-// frontier state but merged sequentially in frontier order.
+// frontier state (in batches, to bound memory) and merged sequentially in
+// frontier order, so the representative path of a state is always the first
+// one in breadth-first, alphabet order.
 func explore(r *report.Run, maxDepth, capObjs int, thorough bool, deadlineSec float64) histStats {
 	var st histStats
 	visited := map[[16]byte]struct{}{}
 	var frontier []node
 	for si := range scripts {
+		si := si
 		w, m := newWorld(si, capObjs), newModel(si, capObjs)
 		fails, canon := checkState(w, m, nil, 0, func() string { return fmt.Sprintf("script %q initial state", scripts[si].Src) })
 		c := Case{Part: "history", Script: scripts[si].Src, Cap: capObjs}
@@ -452,110 +510,127 @@ func explore(r *report.Run, maxDepth, capObjs int, thorough bool, deadlineSec fl
 		}
 		if len(fails) == 0 {
 			visited[hashKey(canon)] = struct{}{}
-			frontier = append(frontier, node{si: si})
+			frontier = append(frontier, node{si: uint8(si)})
 			st.states++
 		}
 	}
 	st.perDepth = append(st.perDepth, st.states)
 	var validated, evaluations int64
+	var seq int64
 	for d := 0; d < maxDepth; d++ {
 		if r.Elapsed().Seconds() > deadlineSec {
 			r.NotExhaustive(fmt.Sprintf("part 1 stopped before expanding depth %d (deadline %.0fs); all shallower levels are complete", d, deadlineSec))
 			break
 		}
 		st.frontier = append(st.frontier, len(frontier))
-		results := make([][]succ, len(frontier))
-		report.ParallelFor(len(frontier), func(i int) {
-			nd := frontier[i]
-			vals := valsFor(nd.si, thorough)
-			mm := newModel(nd.si, capObjs)
-			for _, op := range nd.path {
-				mm.do(op)
-			}
-			mut, ro := enabledOps(len(mm.objs), vals)
-			out := make([]succ, 0, len(mut)+len(ro))
-			for _, op := range mut {
-				w, m, bad := replay(nd.si, capObjs, nd.path)
-				atomic.AddInt64(&evaluations, 1)
-				if bad != "" {
-					r.Internal("replay of [%s] failed: %s", pathString(nd.path), bad)
-					continue
-				}
-				fails, obs, canon := stepChecked(w, m, op, nd.path)
-				atomic.AddInt64(&validated, 1)
-				s := succ{op: op, fails: fails, cls: op.K + ":" + outcomeClass(obs)}
-				if (i*131+len(out))%200003 == 0 {
-					s.sample = clip(obs, 200)
-				}
-				if len(fails) == 0 {
-					s.ok = true
-					s.key = hashKey(canon)
-					s.nontr = m.ran && len(m.objs) > 0
-				}
-				out = append(out, s)
-			}
-			if len(ro) > 0 {
-				// all observers on one replay: each must leave the state unchanged
-				w, m, bad := replay(nd.si, capObjs, nd.path)
-				atomic.AddInt64(&evaluations, 1)
-				if bad != "" {
-					r.Internal("replay of [%s] failed: %s", pathString(nd.path), bad)
-				} else {
-					for _, op := range ro {
-						fails, obs, canon := stepChecked(w, m, op, nd.path)
-						atomic.AddInt64(&validated, 1)
-						s := succ{op: op, fails: fails, cls: op.K + ":" + outcomeClass(obs)}
-						if (i*131+len(out))%200003 == 0 {
-							s.sample = clip(obs, 200)
-						}
-						if len(fails) == 0 {
-							s.ok = true
-							s.key = hashKey(canon)
-							s.nontr = m.ran && len(m.objs) > 0
-						}
-						out = append(out, s)
-						if len(fails) > 0 {
-							break
-						}
-					}
-				}
-			}
-			results[i] = out
-		})
+		last := d == maxDepth-1
 		var next []node
 		var newStates int64
-		for i, out := range results {
-			nd := frontier[i]
-			for j, s := range out {
-				r.Outcome(s.cls)
-				if (i*131+j)%200003 == 0 {
-					r.Sample(map[string]interface{}{"part": "history", "script": scripts[nd.si].Src,
-						"path": pathString(nd.path), "op": s.op.String(), "observed": s.sample})
+		stop := false
+		for lo := 0; lo < len(frontier); lo += batchSize {
+			hi := lo + batchSize
+			if hi > len(frontier) {
+				hi = len(frontier)
+			}
+			if lo > 0 && r.Elapsed().Seconds() > deadlineSec {
+				r.NotExhaustive(fmt.Sprintf("part 1 stopped inside depth %d after %d of %d frontier states (deadline %.0fs); all shallower levels are complete", d, lo, len(frontier), deadlineSec))
+				stop = true
+				break
+			}
+			batch := frontier[lo:hi]
+			results := make([][]succ, len(batch))
+			parFor(len(batch), func(i int) {
+				nd := batch[i]
+				si := int(nd.si)
+				path := nd.ops()
+				vals := valsFor(si, thorough)
+				mm := newModel(si, capObjs)
+				for _, op := range path {
+					mm.do(op)
 				}
-				if !s.ok {
-					p := append(append([]Op{}, nd.path...), s.op)
-					c := Case{Part: "history", Script: scripts[nd.si].Src, Cap: capObjs, Path: p, Text: pathString(p)}
-					for _, f := range s.fails {
-						r.Violation(f.sig, f.what, c)
+				mut, ro := enabledOps(len(mm.objs), vals)
+				out := make([]succ, 0, len(mut)+len(ro))
+				mk := func(op Op, fails []fail, obs, canon string, m *model) succ {
+					s := succ{op: opID[op], fails: fails, cls: op.K + ":" + outcomeClass(obs)}
+					if ((lo+i)*131+len(out))%200003 == 0 {
+						s.sample = clip(obs, 200)
 					}
-					continue
+					if len(fails) == 0 {
+						s.ok = true
+						s.key = hashKey(canon)
+						s.nontr = m.ran && len(m.objs) > 0
+					}
+					return s
 				}
-				if _, seen := visited[s.key]; seen {
-					continue
+				for _, op := range mut {
+					w, m, bad := replay(si, capObjs, path)
+					atomic.AddInt64(&evaluations, 1)
+					if bad != "" {
+						r.Internal("replay of [%s] failed: %s", pathString(path), bad)
+						continue
+					}
+					fails, obs, canon := stepChecked(w, m, op, path)
+					atomic.AddInt64(&validated, 1)
+					out = append(out, mk(op, fails, obs, canon, m))
 				}
-				visited[s.key] = struct{}{}
-				newStates++
-				if s.nontr {
-					st.nontrivial++
+				if len(ro) > 0 {
+					// all observers on one replay: each must leave the state unchanged
+					w, m, bad := replay(si, capObjs, path)
+					atomic.AddInt64(&evaluations, 1)
+					if bad != "" {
+						r.Internal("replay of [%s] failed: %s", pathString(path), bad)
+					} else {
+						for _, op := range ro {
+							fails, obs, canon := stepChecked(w, m, op, path)
+							atomic.AddInt64(&validated, 1)
+							out = append(out, mk(op, fails, obs, canon, m))
+							if len(fails) > 0 {
+								break
+							}
+						}
+					}
 				}
-				next = append(next, node{si: nd.si, path: append(append(make([]Op, 0, len(nd.path)+1), nd.path...), s.op)})
+				results[i] = out
+			})
+			for i, out := range results {
+				nd := batch[i]
+				for _, s := range out {
+					seq++
+					r.Outcome(s.cls)
+					if s.sample != "" {
+						r.Sample(map[string]interface{}{"part": "history", "script": scripts[nd.si].Src,
+							"path": pathString(nd.ops()), "op": opTable[s.op].String(), "observed": s.sample})
+					}
+					if !s.ok {
+						p := append(nd.ops(), opTable[s.op])
+						c := Case{Part: "history", Script: scripts[nd.si].Src, Cap: capObjs, Path: p, Text: pathString(p)}
+						for _, f := range s.fails {
+							r.Violation(f.sig, f.what, c)
+						}
+						continue
+					}
+					if _, seen := visited[s.key]; seen {
+						continue
+					}
+					visited[s.key] = struct{}{}
+					newStates++
+					if s.nontr {
+						st.nontrivial++
+					}
+					if !last {
+						np := make([]uint16, len(nd.path)+1)
+						copy(np, nd.path)
+						np[len(nd.path)] = s.op
+						next = append(next, node{si: nd.si, path: np})
+					}
+				}
 			}
 		}
 		st.states += newStates
 		st.perDepth = append(st.perDepth, newStates)
 		st.depth = d + 1
 		frontier = next
-		if len(frontier) == 0 {
+		if len(frontier) == 0 || stop {
 			break
 		}
 	}
@@ -604,4 +679,29 @@ func runHistoryCase(c Case) ([]fail, string) {
 		}
 	}
 	return all, sb.String()
+}
+
+// parFor: like report.ParallelFor with chunk size 1 (one frontier state is
+// already 40-90 replays of work).
+func parFor(n int, fn func(i int)) {
+	workers := runtime.GOMAXPROCS(0)
+	if workers > n {
+		workers = n
+	}
+	var next int64 = -1
+	var wg sync.WaitGroup
+	for w := 0; w < workers; w++ {
+		wg.Add(1)
+		go func() {
+			defer wg.Done()
+			for {
+				i := int(atomic.AddInt64(&next, 1))
+				if i >= n {
+					return
+				}
+				fn(i)
+			}
+		}()
+	}
+	wg.Wait()
 }
